@@ -90,7 +90,7 @@ func (c08Engine) FreshProcess(class string) bool { return raceEnabled }
 // genConstHeavy builds a program whose compiled form holds constants of many kinds.
 func genConstHeavy(r *RNG) *N {
 	part := func() *N {
-		switch r.Intn(12) {
+		switch r.Intn(14) {
 		case 0:
 			return nBin("matches", nID(r.Pick([]string{"S", "T"})), nStr(r.Pick(rePool))) // *regexp.Regexp constant
 		case 1:
@@ -113,6 +113,16 @@ func genConstHeavy(r *RNG) *N {
 			return nLen(nBi("filter", nID("Xs"), nBin("in", nPtr(), nArr(nInt(1), nInt(2), nInt(3), nInt(5)))))
 		case 10:
 			return nBi("count", nID("Ss"), nBin("in", nPtr(), nArr(nStr("a"), nStr("ab"), nStr("é"))))
+		case 11:
+			// run-time patterns that differ between programs
+			switch r.Intn(3) {
+			case 0:
+				return nBin("matches", nID("S"), nID("Re"))
+			case 1:
+				return nBin("matches", nID("T"), nBin("+", nStr("^"), nID("S")))
+			default:
+				return nBin("matches", nBin("+", nID("S"), nID("T")), nBin("+", nID("T"), nStr("$")))
+			}
 		default:
 			return nBin("+", nStr(r.Pick(strPool)), nCall("S1", nID("S")))
 		}
@@ -309,7 +319,7 @@ func runSched(sc *SchedScenario, ctx *RunCtx) (*Finding, []Seg) {
 	baseProgs := make([]*vm.Program, len(sc.Progs))
 	srcs := make([]string, len(sc.Progs))
 	for i, p := range sc.Progs {
-		srcs[i] = Print(p.Tree, Layout{}).Src
+		srcs[i] = p.Src()
 		for _, pool := range [][]*vm.Program{baseProgs, progs} {
 			pr, co := sutCompile(srcs[i], optsOf[i]...)
 			if co.Failed() {
